@@ -23,6 +23,7 @@ func init() {
 		Run: runC22,
 		Controls: []Control{
 			{Name: "reject-returns-before-close-on-write-error", File: "protocols/bgp/server/fsm_open_sent.go", Old: "\tif s.fsm.con != nil {\n\t\ts.fsm.sendNotification(packet.OpenMessageError, errorSubCode)\n\t\ts.fsm.con.Close()\n\t}\n", New: "\tif s.fsm.con != nil {\n\t\tif err := s.fsm.sendNotification(packet.OpenMessageError, errorSubCode); err != nil {\n\t\t\treturn newIdleState(s.fsm), reason\n\t\t}\n\t\ts.fsm.con.Close()\n\t}\n", Expect: "open-reject-closes-connection"},
+			{Name: "send-only-peer-falls-through-to-tx", File: "protocols/bgp/server/fsm_open_sent.go", Old: "\t\tcase packet.AddPathSend:\n\t\t\tif peerAddressFamily.addPathReceive {\n\t\t\t\tf.addPathRX = true\n\t\t\t}\n\t\tcase packet.AddPathSendReceive:\n", New: "\t\tcase packet.AddPathSend:\n\t\t\tif peerAddressFamily.addPathReceive {\n\t\t\t\tf.addPathRX = true\n\t\t\t}\n\t\t\tfallthrough\n\t\tcase packet.AddPathSendReceive:\n", Expect: "capability-needs-both-sides"},
 			{Name: "role-conflict-flag-reassigned-per-capability", File: "protocols/bgp/server/fsm_open_sent.go", Old: "\tif s.fsm.peer.peerRoleAdvByPeer && s.fsm.peer.peerRoleRemote != cap.PeerRole {\n\t\ts.multiplePeerRolesRcvd = true\n\t}\n", New: "\ts.multiplePeerRolesRcvd = s.fsm.peer.peerRoleAdvByPeer && s.fsm.peer.peerRoleRemote != cap.PeerRole\n", Expect: "conflict-flag-is-a-latch"},
 			{Name: "four-octet-flag-survives-the-session", File: "protocols/bgp/server/fsm_open_sent.go", Old: "\ts.fsm.supports4OctetASN = false\n", New: "", Expect: "negotiated-state-reset-per-session"},
 			{Name: "role-remembered-across-sessions", File: "protocols/bgp/server/fsm_open_sent.go", Old: "\ts.fsm.peer.peerRoleAdvByPeer = false\n", New: "", Expect: "negotiated-state-reset-per-session"},
@@ -413,12 +414,24 @@ func capabilityStores(c *core.Ctx) {
 	if f != nil {
 		for _, nd := range needs {
 			n := 0
+			covered := map[types.Object]bool{}
 			ast.Inspect(f.Decl.Body, func(x ast.Node) bool {
 				as, ok := x.(*ast.AssignStmt)
 				if !ok || len(as.Lhs) != 1 || core.FieldOf(f.Pkg, as.Lhs[0]) != nd.field {
 					return true
 				}
 				n++
+				for _, ft := range core.CtlFactsAt(f, as) {
+					if ft.Tag != nil && ft.Truth {
+						for _, v := range ft.Vals {
+							for _, tv := range nd.tagVals {
+								if isConstObj(f, v, tv) {
+									covered[tv] = true
+								}
+							}
+						}
+					}
+				}
 				facts := core.CtlFactsAt(f, as)
 				local, peerOK := false, false
 				for _, ft := range facts {
@@ -447,7 +460,10 @@ func capabilityStores(c *core.Ctx) {
 					fmt.Sprintf("%s is switched on without being control-dependent on both the peer's capability direction and the local setting (local=%v, peer=%v): the two ends then disagree about the NLRI encoding (4 extra octets per prefix)", nd.what, local, peerOK))
 				return true
 			})
-			c.Check(n >= 2, "capability-needs-both-sides", f.Name()+" has stores enabling "+nd.what, f.Decl.Pos(), "expected two enabling stores (one-directional and send/receive tuple)")
+			c.Check(n >= 1, "capability-needs-both-sides", f.Name()+" has stores enabling "+nd.what, f.Decl.Pos(), "no store enabling it found")
+			for _, tv := range nd.tagVals {
+				c.Check(covered[tv], "capability-needs-both-sides", f.Name()+" enables "+nd.what+" when the peer announces "+tv.Name(), f.Decl.Pos(), "no store enables "+nd.what+" for a peer that announced "+tv.Name()+": add-path stays off in a direction both sides agreed on")
+			}
 		}
 	}
 	// dispatch: each process*Capability is called only under its capability code
